@@ -204,7 +204,7 @@ class eval_abs(object):
 
     def is_mem_in_target(self, e, t):
         ex = ExprOp('-', e.arg, t.arg)
-        ex = expr_simp(self.eval_expr(ex, {}))
+        ex = expr_simp(ex)
         if not isinstance(ex, ExprInt):
             return None
         ptr_diff = int32(ex.arg)
@@ -216,7 +216,7 @@ class eval_abs(object):
 
     def substract_mems(self, a, b):
         ex = ExprOp('-', b.arg, a.arg)
-        ex = expr_simp(self.eval_expr(ex, {}))
+        ex = expr_simp(ex)
         if not isinstance(ex, ExprInt):
             return None
         ptr_diff = int(int32(ex.arg))
@@ -230,7 +230,7 @@ class eval_abs(object):
                 pass
             else:
                 ex = ExprOp('+', a.arg, ExprInt(uint32(sub_size/8)))
-                ex = expr_simp(self.eval_expr(ex, {}))
+                ex = expr_simp(ex)
 
                 rest_ptr = ex
                 rest_size = a.size - sub_size
@@ -253,7 +253,7 @@ class eval_abs(object):
             if ptr_diff*8+b.size <a.size:
 
                 ex = ExprOp('+', b.arg, ExprInt(uint32(b.size/8)))
-                ex = expr_simp(self.eval_expr(ex, {}))
+                ex = expr_simp(ex)
 
                 val = self.pool[a][ptr_diff*8 + b.size:a.size]
                 out.append((ExprMem(ex, val.get_size()), val))
@@ -273,7 +273,7 @@ class eval_abs(object):
             if not isinstance(k, ExprMem):
                 continue
             ex = ExprOp('-', k.arg, e.arg)
-            ex = expr_simp(self.eval_expr(ex, {}))
+            ex = expr_simp(ex)
             if not isinstance(ex, ExprInt):
                 continue
             ptr_diff = int32(ex.arg)
@@ -287,7 +287,7 @@ class eval_abs(object):
         #comp = {}
         #print("FINDING %s" % e)
         for i in range(-7, e.size//8):
-            ex = expr_simp(self.eval_expr(e.arg + ExprInt(uint32(i)), eval_cache))
+            ex = expr_simp(e.arg + ExprInt(uint32(i)))
             #print("%s %s"%(i, ex))
             to_test.append((i, ex))
 
@@ -295,7 +295,7 @@ class eval_abs(object):
             if not x in self.pool.pool_mem:
                 continue
 
-            ex = expr_simp(self.eval_expr(e.arg - x, eval_cache))
+            ex = expr_simp(e.arg - x)
             if not isinstance(ex, ExprInt):
                 raise ValueError("%s should be ExprInt instead of %s"%(ex,ex.__class__.__name__))
             ptr_diff = int32(ex.arg)
@@ -682,7 +682,7 @@ class eval_abs(object):
                 out.append(val)
                 ptr_index+=diff_size
                 rest -= diff_size
-                ptr = expr_simp(self.eval_expr(ExprOp('+', ptr, ExprInt(uint32(v.size/8))), eval_cache))
+                ptr = expr_simp(ExprOp('+', ptr, ExprInt(uint32(v.size//8))))
             e = expr_simp(ExprCompose(out))
             return e
         #part lookup
@@ -926,7 +926,9 @@ class eval_abs(object):
         return mem_dst
 
     def get_reg(self, r):
-        return self.eval_expr(self.pool[r], {})
+        # the pool holds values (results of evaluation): evaluating one again
+        # would read the current memory instead of the memory it was read from
+        return self.pool[r]
 
 
 
